@@ -25,6 +25,11 @@ class Undecided(Exception):
     pass
 
 
+class _Idx(str):
+    """name of an index variable; .sel = the selection inside which it counts positions (None: positions in the whole column)"""
+    sel = None
+
+
 class Field:
     def __init__(self, root, attr, selector=None, col=None, transforms=None, index=None):
         self.root, self.attr, self.selector, self.col = root, attr, selector, col
@@ -276,7 +281,13 @@ def _value(x, bound, env, index=None, lenv=None):
             if isinstance(sl, ast.Name) and sl.id == index:
                 f = array_field(x.value, env)
                 if f.selector is not None:
+                    # positions inside one common selection S: the index runs over flatnonzero(M[S]) and every array read with it is X[S]
+                    # - the same rows as zip(X[S], .., M[S]) filtered by its last member
+                    if getattr(index, "sel", None) is not None and str(f.selector).replace(" ", "") == str(index.sel).replace(" ", ""):
+                        return f.copy(index=index)
                     raise Undecided(f"`{U(x)}` indexes an already selected array by the loop index")
+                if getattr(index, "sel", None) is not None:
+                    raise Undecided(f"`{U(x)}` indexes a whole column by a position inside the selection `{index.sel}`")
                 return f.copy(index=index)
             if isinstance(sl, ast.Tuple) and len(sl.elts) == 2 and isinstance(sl.elts[0], ast.Name) and sl.elts[0].id == index and isinstance(sl.elts[1], ast.Constant):
                 f = array_field(x.value, env)
@@ -333,10 +344,11 @@ def sink_feed(fnode, env, sink_tail):
         if not isinstance(loop.target, ast.Name):
             raise Undecided("index loop with a tuple target")
         bound = {}
-        index = loop.target.id
+        index = _Idx(loop.target.id)
         filters = []
         if st.index_mask is not None:
             filters.append((st.index_mask, True))
+            index.sel = st.index_mask.selector
     # early `continue` guards in the loop body before the call
     from .astutil import stmt_conditions
     conds = stmt_conditions(loop.body)
